@@ -199,8 +199,7 @@ Definition effective_error_table (lv : levels) : list (string * nat * ekind) :=
 Inductive wbody :=
 | WNone
 | WObj (fs : fields)      (* JSON object *)
-| WVal (v : string)       (* JSON scalar / array *)
-| WWhole (fs : fields).   (* the Go error value marshalled as it is (Go field names) *)
+| WVal (v : string).      (* JSON scalar / array *)
 
 (* calls made on the http.ResponseWriter *)
 Inductive wev :=
@@ -247,7 +246,7 @@ Definition body_events (d : edecl) (vf : fields) : list wev :=
   match ebody d with
   | BEmpty => []
   | BObject attrs => [WriteBody (WObj (filter (fun kv => mem (fst kv) attrs) vf))]
-  | BAttr _ => [WriteBody (WWhole vf)]     (* the template never selects the attribute for errors *)
+  | BAttr a => [WriteBody (WVal (opt_default (lookup a vf)))]   (* body := res.<Attr> (ResponseData.ResultAttr) *)
   | BValue => [WriteBody (WVal (opt_default (lookup "" vf)))]
   end.
 
